@@ -136,6 +136,12 @@ func (w *world) checkStable(at string) {
 
 //go:norace
 func (w *world) add(e event) {
+	// a user callback is an observable event: it gets its own scheduling point, so that another thread can act between
+	// the library's previous synchronisation step and the moment the user is told (e.g. a reply written before the read
+	// callback of its request runs)
+	if vs.Active() {
+		vs.Yield("callback", 0)
+	}
 	if w.stab {
 		w.checkStable(e.Kind)
 	}
